@@ -84,10 +84,34 @@ def run_case(c):
         with np.errstate(all="ignore"):
             f2.add_signal(**sig_args(c, sub[0], offset=(fr.t_start - t0)))
         refs.append(f2.data.copy())
+    # the same frames may have been injected into before, under other time offsets: alone, or through another selection of the cadence
+    # (its tail, whose first frame -- the reference -- is a different one).  What the injection under test adds must not depend on that.
+    if c.get("pre") == "tail" and len(cad) >= 2:
+        with np.errstate(all="ignore"):
+            cad[1:].add_signal(**sig_args(c, cad[1]))
+    elif c.get("pre") == "each":
+        for fr in cad:
+            with np.errstate(all="ignore"):
+                fr.add_signal(**sig_args(c, fr))
+    base = [fr.data.copy() for fr in sub]
+    for m, (fr, tb) in enumerate(zip(sub, ts_before)):
+        if not np.array_equal(fr.ts, tb):
+            out["fails"].append(["ts-drift", "frame %d: time axis changed by the earlier injection (%s)" % (m, c.get("pre"))])
+            break
     for rep in range(c.get("repeat", 1)):
         with np.errstate(all="ignore"):
             sub.add_signal(**sig_args(c, sub[0]))
-    for m, (fr, ref) in enumerate(zip(sub, refs)):
+    for m, (fr, ref, b0) in enumerate(zip(sub, refs, base)):
+        if c.get("pre"):
+            got = fr.data - b0
+            same = np.allclose(got, ref * c.get("repeat", 1), rtol=1e-9, atol=1e-9 * max(1.0, float(np.max(np.abs(fr.data)))))
+            if not same:
+                o = c["signal"]
+                out["fails"].append(["offset-after-earlier-injection", "frame %d, already injected into before (%s): what this injection added differs from single-frame injection at t + %r s "
+                                     "(max diff %g; integrate_path=%s integrate_t=%s smear=%s)" % (m, c["pre"], fr.t_start - t0, float(np.max(np.abs(got - ref * c.get("repeat", 1)))),
+                                                                                             o.get("integrate_path"), o.get("integrate_t"), o.get("smear"))])
+                break
+            continue
         if not np.array_equal(fr.data, ref * c.get("repeat", 1)) and not np.allclose(fr.data, ref * c.get("repeat", 1), rtol=1e-9, atol=1e-9):
             o = c["signal"]
             out["fails"].append(["offset", "frame %d: injected data differ from single-frame injection with path and time profile evaluated at t + (t_start - cadence t_start) = t + %r s "
